@@ -37,7 +37,17 @@ def cases(draw, depth=3, kind=None, astral=False, docform=None):
     if draw(st.integers(0, 2)) == 0:
         ctxlist = draw(st.lists(st.integers(0, 80), min_size=0, max_size=5))
     return {'xml': xml, 'expr': expr['expr'], 'kind': expr['kind'], 'ntok': expr['ntok'], 'ctx': ctx, 'ctxlist': ctxlist,
-            'vars': draw(gen_xpath.bindings()), 'docform': docform or draw(st.sampled_from(['native', 'native', 'xerces']))}
+            'vars': draw(gen_xpath.bindings()), 'docform': docform or draw(st.sampled_from(['native', 'native', 'xerces'])),
+            'prior': draw(priors())}
+
+
+@st.composite
+def priors(draw):
+    """expressions that the same execution context evaluates, converts in every way and releases before the expression under test (the
+    driver's prior= field): within a transformation one context and one object factory serve every evaluation, and recycle their objects"""
+    if draw(st.integers(0, 2)):
+        return []
+    return [draw(gen_xpath.expressions(1, draw(st.sampled_from(['ns', 'ns', 'ns', 'str', 'num']))))['expr'] for _ in range(draw(st.integers(1, 3)))]
 
 
 class Prepared(object):
@@ -106,6 +116,8 @@ class Prepared(object):
         f = [('ns', '%s=%s' % kv) for kv in NSMAP.items()] + list(self.varfields)
         if self.ctxlist is not None:
             f.append(('ctxlist', '\n'.join(n.key for n in self.ctxlist)))
+        for e in self.case.get('prior') or []:
+            f.append(('prior', e))
         return f
 
     def call(self, ctx, expr, only='g', pattern=False):
